@@ -40,6 +40,7 @@ import io
 import json
 import os
 import random
+import re
 import sys
 import time
 
@@ -135,6 +136,7 @@ _fill_level()
 # ======================================================================================================
 
 BIG = 70000      # > 64 KiB: more than one pipe buffer
+_ADDR = re.compile(r' at 0x[0-9a-fA-F]+')     # object addresses in reprs (closures are re-created per run)
 
 
 def _blob(s):
@@ -143,6 +145,7 @@ def _blob(s):
         return None
     if not isinstance(s, str):
         s = repr(s)
+    s = _ADDR.sub(' at 0x?', s)
     if len(s) <= 200:
         return s
     return {'len': len(s), 'sha1': hashlib.sha1(s.encode('utf-8', 'replace')).hexdigest(), 'head': s[:40]}
